@@ -30,5 +30,34 @@ for dp, dn, fn in os.walk(os.path.join(root, "typhon")):
                     rec(ch, prefix, nested)
         rec(tree, "", False)
         out[rel] = sorted(names)
-json.dump(out, open(os.path.join(os.path.dirname(os.path.abspath(__file__)), "..", "tyverif", "known_funcs.json"), "w"), indent=0, sort_keys=True)
+here = os.path.dirname(os.path.abspath(__file__))
+json.dump(out, open(os.path.join(here, "..", "tyverif", "known_funcs.json"), "w"), indent=0, sort_keys=True)
+# locals of every function / method: how each is defined (for renaming new names back and recognising new temporaries)
+sys.path.insert(0, os.path.join(here, ".."))
+from tyverif.normalize import local_signatures
+loc = {}
+for dp, dn, fn in os.walk(os.path.join(root, "typhon")):
+    for f in fn:
+        if not f.endswith(".py"):
+            continue
+        p = os.path.join(dp, f)
+        rel = os.path.relpath(p, root)
+        try:
+            tree = ast.parse(open(p).read())
+        except SyntaxError:
+            continue
+        d = {}
+        for n in tree.body:
+            if isinstance(n, (ast.FunctionDef, ast.AsyncFunctionDef)):
+                d[n.name] = local_signatures(n)
+            elif isinstance(n, ast.ClassDef):
+                for m in n.body:
+                    if isinstance(m, (ast.FunctionDef, ast.AsyncFunctionDef)):
+                        q = n.name + "." + m.name
+                        decos = [ast.unparse(x) for x in m.decorator_list]
+                        if any(x.endswith(".setter") for x in decos):
+                            q += ".setter"
+                        d[q] = local_signatures(m)
+        loc[rel] = d
+json.dump(loc, open(os.path.join(here, "..", "tyverif", "known_locals.json"), "w"), indent=0, sort_keys=True)
 print(sum(len(v) for v in out.values()), "entries")
